@@ -19,12 +19,12 @@ CHECKS = {
     note="Trusted: harness/src/model/glob.rs + model/fnmatch.rs. Classes the simulated OS cannot express (symlink in the middle of a path, unreadable directories) are skipped and counted; one simulator deviation is an open known finding (vfs-dot-in-unsearchable-dir).",
     design="4/C05"),
  "C06": dict(
-    technique="property-based testing: grammar-based program generation, mutation of generated and corpus texts, token/Unicode soup, the repository's scripted-test corpus; oracles: totality (no panic/blocking/no-progress), metamorphic read-ahead check on line prefixes, and parse-print-parse equality on a hand-written structural normal form; typeset -fp path through the virtual shell",
+    technique="property-based testing: grammar-based program generation, mutation of generated and corpus texts, token/Unicode soup, the repository's scripted-test corpus; oracles: totality (no panic/blocking/no-progress), metamorphic read-ahead check on line prefixes, and parse-print-parse equality on a hand-written structural normal form; typeset -fp path through the virtual shell; thorough tier adds coverage-guided fuzzing (libFuzzer targets c06_text, c06_grammar, c06_mutant) over the same oracles, quick tier replays their committed corpus",
     text="Exploration: 100 corpus files (1972 embedded scripts), a 136-entry catalogue, 100k grammar programs, 100k mutants, 80k soup texts, 16k function definitions through typeset -fp, and every parameter-name string up to length 4 (quick; thorough ~12M): the parser must terminate with a tree or a syntax error (also through the shell: diagnostic + non-zero status), must not need a line it does not use, and every printed tree must re-parse to an equal normal form (idempotent printing). Bounded; generated nesting <= 40.",
     note="Trusted: the normal-form walker over the public AST (only Locations erased) and the generators in harness/src/props/c06.rs. Here-document bodies are compared only by operator and delimiter. Six printer/lexer corner cases are open known findings; a stack probe records where unbounded recursion overflows (1008 nested groups on an 8 MiB stack).",
     design="4/C06"),
  "C07": dict(
-    technique="property-based testing: round trip quote->lex->expand over exhaustive/random strings, and print->evaluate-in-fresh-shell->snapshot comparison over proptest state-definition sequences for ten listing built-ins",
+    technique="property-based testing: round trip quote->lex->expand over exhaustive/random strings, and print->evaluate-in-fresh-shell->snapshot comparison over proptest state-definition sequences for ten listing built-ins; thorough tier adds a libFuzzer target (c07_quote) over the quote round trip, quick tier replays its corpus",
     text="Exploration: every string up to length 3 (quick) / 4 (thorough) over 43 shell-special characters plus random Unicode strings to length 40 must read back as exactly one identical field in six syntactic positions; random states (variables with attributes, arrays, aliases, functions, options, traps, umask) printed by alias / export -p / readonly -p / typeset -p / typeset -fp / set / set +o / trap / umask / umask -S must be recreated by a fresh shell evaluating the listing. Bounded.",
     note="Trusted: snapshot probe, the harness' own single-quote renderer for definitions. Two open known findings concern typeset -fp (function keyword, reserved-word names). Global aliases do not exist in yash-rs and are not covered.",
     design="4/C07"),
@@ -53,19 +53,19 @@ CHECKS = {
     text="Exploration: (API) every operation tree of <=4 (quick) / <=5 (thorough) mutating operations over 2 names x 2 values x 8 action lists at nesting <=3, plus random trees of <=30 operations, executed on the real VariableSet and on a naive stack-of-maps model, everything compared after each step; (scripts) 60k (quick) / 3M (thorough) generated programs with temporary assignments on every command kind, function locals, positional parameters, read-only marks and all assigners, compared with a model of the manual at every snapshot, at every execve environment and at the end.",
     note="Trusted: the two models (c16a.rs, c16b.rs). Whether a prefix assignment of a special built-in sets the export attribute is treated as unspecified (manual and code disagree; POSIX leaves it open). Undocumented interactions of function bodies with a caller's temporary assignment are skipped and counted.",
     design="4/C16"), "C03": dict(
-    technique="property-based testing: exhaustive small-tree enumeration + proptest random trees/token soup against an i128 reference evaluator; metamorphic constant-vs-variable relation",
+    technique="property-based testing: exhaustive small-tree enumeration + proptest random trees/token soup against an i128 reference evaluator; metamorphic constant-vs-variable relation; thorough tier adds libFuzzer targets (c03_text: raw expression text, c03_tree: byte-decoded expression trees) over the same oracles, quick tier replays their corpus",
     text="Exploration: every expression tree of depth<=2 over all operators on boundary operands (quick: depth 1 complete, depth 2 strided; thorough: complete), millions of random deeper trees, token soup and arbitrary text, each compared with an independent exact evaluator (value, final variables, or 'must be an error'). Bounded search, not a proof: absence of wrong results is only shown for what was generated.",
     note="Trusted: the harness' reference evaluator (C semantics on i128) and renderer. Unsequenced side effects, parenthesised lvalues and non-constant variable texts are skipped as unspecified.",
     design="4/C03"),
  "C04": dict(
-    technique="property-based testing: exhaustive (pattern, string, mode) enumeration + proptest bracket-expression grammar against an independent POSIX pattern parser and backtracking matcher",
+    technique="property-based testing: exhaustive (pattern, string, mode) enumeration + proptest bracket-expression grammar against an independent POSIX pattern parser and matcher; thorough tier adds a libFuzzer target (c04_pat) over the same oracle, quick tier replays its corpus",
     text="Exploration: every pattern up to length 4 (quick) / 5 (thorough) over the metacharacter alphabet, with and without backslash escaping, against every string up to length 3, in the six configurations the shell uses (whole match with/without leading-period rule, the four trims); plus random longer patterns with ranges, classes, collating symbols and equivalence classes over all printable ASCII and some non-ASCII characters. Compared with a reference matcher written from the POSIX text. Bounded search, not a proof.",
     note="Trusted: the harness' reference parser/matcher for the POSIX locale. Patterns whose meaning POSIX leaves undefined are skipped (counted in the evidence).",
     design="4/C04"),
  "C11": dict(
     technique="property-based testing / stateful: exhaustive + proptest operation histories on TrapSet over the real SignalSystem implementation against a per-signal reference merge; proptest scripts with a trapped signal delivered by self-kill at every position and asynchronously by the harness scheduler",
     text="Exploration: every history of <=5 operations (quick: strided, thorough: complete) over a 35-operation alphabet x interactive/non-interactive x 3 sets of initially ignored signals, plus random histories of <=14 operations; after each operation the disposition installed in the simulated process for each of 9 signals must equal max(internal, user/inherited), set_action must fail exactly in the documented cases, take_caught_signal must yield each trapped delivery exactly once. Scripts: 40k (quick) / 2M (thorough) with `kill -s USR1 $$` at every position or SIGUSR1 raised by the scheduler before a generated step: exactly one trap execution, at a command boundary, seeing and preserving $?. Bounded.",
-    note="Trusted: the reference merge in harness/src/props/c11.rs, the scheduler's asynchronous raise (only when the process currently catches the signal). Delivery during the wait built-in and two deliveries before one boundary are not judged; terminal/job-control stoppers are exercised at API level only.",
+    note="Trusted: the reference merge in harness/src/props/c11.rs, the scheduler's asynchronous raise (only when the process currently catches the signal). A third family (chain) covers a signal delivered while another action runs, two signals pending at one boundary, an action that returns from the enclosing function, and delivery by the last command. Delivery during the wait built-in is not judged; terminal/job-control stoppers are exercised at API level only.",
     design="4/C11"),
  "C12": dict(
     technique="property-based testing / stateful: exhaustive enumeration of valid job-event histories (automaton unranking) + proptest random histories against a shadow model and the documented invariants, checked through the public JobList API after every step",
